@@ -275,7 +275,10 @@ func c11Run(c *Ctx) {
 	if cs.Via == "default" {
 		o.Defaults = []string{cs.Text}
 	}
-	o.Prog = len(cs.Choice) > 0 && c.K%2 == 0 // choices declared programmatically in half of the cases
+	o.Prog = len(cs.Choice) > 0 && c.K%3 == 0 // all choices declared programmatically in a third of the cases
+	if len(cs.Choice) > 1 && c.K%3 == 1 {
+		o.ProgChoicesFrom = len(cs.Choice) - 1 // the last choice is appended to the tag-declared ones after scanning
+	}
 	envKey := ""
 	if cs.Via == "env" {
 		if c.W.Tier == "race" || strings.ContainsRune(cs.Text, 0) {
